@@ -278,6 +278,7 @@ def _run_sync_execute(
 
     for attempt in range(1, policy.max_attempts + 1):
         attempt_state = AttemptState()
+        in_operation = False
 
         try:
             state.check_abort(attempt - 1)
@@ -285,10 +286,12 @@ def _run_sync_execute(
             attempt_state.started = True
             attempts = attempt
 
+            in_operation = True
             if attempt_timeout_s is None:
                 result = func()
             else:
                 result = _call_with_timeout(func, attempt_timeout_s)
+            in_operation = False
 
             # Success path: check if result needs classification
             needs_retry, classification = should_classify_result(policy, result)
@@ -359,6 +362,10 @@ def _run_sync_execute(
         except RetryExhaustedError:
             raise
         except Exception as exc:
+            if not in_operation:
+                # Raised by a caller-supplied callback (hook, strategy, sleeper, result
+                # classifier) outside the operation: not an attempt failure to retry.
+                raise
             attempt_state.cause = "exception"
             try:
                 state.check_abort(attempt)
